@@ -432,6 +432,10 @@ def attribute(case, message, bucket):
     return None
 
 
+# coverage-guided stage (atheris drives these Hypothesis shards, see vf/run.py): {tier: {shard kind: (shards, executions)}}
+CG = {'thorough': {'compose': (6, 3000), 'stock': (4, 15000)}}
+
+
 def plan(tier, seed, scale=1.0):
     b = BOUNDS[tier]
     shards = 12 if tier == "quick" else 96
